@@ -169,6 +169,36 @@ class C12a(Monitor):
                 r.report("C12", f"pump-on-while-cover-moves:{f}", f"pump running in {f}")
 
 
+class C12b(Monitor):
+    """C12: open modes are entered only after the cover has reported fully open, eco from an open mode only after it reported
+    closed to the configured position - judged on the TRUE position of the (fake) cover at the instant the phase is left"""
+
+    pid = "C12"
+
+    def attach(self, r):
+        self.r = r
+        r.world.on_state.append(self.on_state)
+
+    def on_state(self, actor, old, new, hname, now, log_before):
+        if actor.sim_name != "Filtration" or old is None or new is None:
+            return
+        dev = self.r.sys.arduino_dev
+        try:
+            dev._update()
+            pos = int(dev.pos)
+        except Exception:  # noqa: BLE001
+            return
+        if old.startswith("opening") and new in ("standby_boost", "overflow_boost", "standby_normal", "overflow_normal") and pos < 100:
+            self.r.report("C12", "opened-before-fully-open", f"{new} entered from {old} by {hname} with the cover at {pos} % (never reported fully open)")
+        if old == "closing" and new.startswith("eco"):
+            try:
+                eco_pos = int(getattr(actor, "_Filtration__cover_position_eco"))
+            except Exception:  # noqa: BLE001
+                eco_pos = 0
+            if pos > eco_pos:
+                self.r.report("C12", "closed-before-eco-position", f"{new} entered from closing by {hname} with the cover at {pos} % (configured eco position {eco_pos} %)")
+
+
 class C13a(Monitor):
     pid = "C13"
 
@@ -183,6 +213,55 @@ class C13a(Monitor):
             r.report("C13", "swim-user-request-in-wintering", f"a user swim request was accepted while filtration is {f}: swim is {s.state('Swim')}, pump on")
         elif f.startswith("wintering") and _alive(r, "Swim") and s.state("Swim") in ("wintering_waiting", "halt"):
             r.report("C13", f"swim-on-in-wintering:{s.state('Swim')}", f"swim pump on in wintering while its controller is {s.state('Swim')}: started neither by a request nor by the wintering cycle")
+
+
+class C13c(Monitor):
+    """C13, last clause: in timed mode the pump stops by itself after the configured number of minutes (the value the
+    controller holds when the run starts or, if it is changed during the run, the larger of the values in force)"""
+
+    pid = "C13"
+
+    def attach(self, r):
+        self.r = r
+        self.t0 = None
+        self.limit = None
+        r.world.on_state.append(self.on_state)
+
+    def _delay(self, actor):
+        try:
+            return getattr(actor, "_Swim__timer").delay.total_seconds()
+        except Exception:  # noqa: BLE001
+            return None
+
+    def slack(self):
+        return 5.0 + sum([float(a[2]) for a in getattr(self.r, "actions", []) if a and a[0] in ("lag", "lagcmd", "postlag", "racelag")] + [0.0])
+
+    def on_state(self, actor, old, new, hname, now, log_before):
+        if actor.sim_name != "Swim":
+            return
+        if old == "timed" and self.t0 is not None:
+            d = self._delay(actor)
+            lim = max(x for x in (self.limit, d) if x is not None) if (self.limit is not None or d is not None) else None
+            dur = (now - self.t0) / 1e6
+            if lim is not None and dur > lim + self.slack():
+                self.r.report("C13", "timed-run-too-long", f"the timed run of the counter-current pump lasted {dur:.0f} s (configured {lim:.0f} s), ended by {hname}")
+            self.t0 = None
+        if new == "timed":
+            self.t0 = now
+            self.limit = self._delay(actor)
+
+    def finish(self, r):
+        if self.t0 is None or not _alive(r, "Swim") or r.world.deadlock is not None:
+            return
+        try:
+            actor = r.world.actor("Swim")
+        except Exception:  # noqa: BLE001
+            return
+        d = self._delay(actor)
+        lim = max(x for x in (self.limit, d) if x is not None) if (self.limit is not None or d is not None) else None
+        dur = (r.world.now_us - self.t0) / 1e6
+        if lim is not None and dur > lim + self.slack() + 2:
+            r.report("C13", "timed-run-never-ends", f"the counter-current pump is still in its timed run after {dur:.0f} s (configured {lim:.0f} s)")
 
 
 class C15a(Monitor):
@@ -615,7 +694,7 @@ class WinterCycle(Monitor):
             check(k, r.world.now_us)
 
 
-SETTLED_MONITORS = [C01, C01b, C02, C05i, C06a, C07a, C08, C12a, C13a, C15a, C17a, Liveness, Timed, PhaseTimes, WinterCycle, BackwashDue]
+SETTLED_MONITORS = [C01, C01b, C02, C05i, C06a, C07a, C08, C12a, C12b, C13a, C13c, C15a, C17a, Liveness, Timed, PhaseTimes, WinterCycle, BackwashDue]
 
 
 def all_monitors():
